@@ -6,7 +6,7 @@
    encrypt on block multiples, digest / derived-key lengths).  Nothing is assumed about their
    strength: "authenticated" is stated as  success => the stored MACs equal the recomputed ones. *)
 From Coq Require Import String ZArith List.
-From DH Require Import Model.VmxCrypto Proofs.VmxCrypto.
+From DH Require Import Model.VmxCrypto Proofs.VmxCrypto Proofs.VmxCodec.
 Import ListNotations.
 Open Scope Z_scope.
 
@@ -117,6 +117,59 @@ Theorem C15_no_partial_update :
   fst (unlock_state o attr pw) <> XOk tt -> snd (unlock_state o attr pw) = attr.
 Proof. exact no_partial_update. Qed.
 Print Assumptions C15_no_partial_update.
+
+(* ---------- codecs: the reader's decoders invert the writer, at full generality ---------- *)
+Theorem C15_b64_roundtrip :
+  forall bs, bytes_ok bs -> b64decode_str (b64encode bs) = XOk bs.
+Proof. exact b64_roundtrip. Qed.
+Print Assumptions C15_b64_roundtrip.
+
+Theorem C15_unquote_quote :
+  forall s, ascii_ok s -> unquote (quote s) = s.
+Proof. exact unquote_quote. Qed.
+Print Assumptions C15_unquote_quote.
+
+(* the key dictionary the writer puts inside a pair (type=key:cipher=..:key=<quoted base64>) yields the key *)
+Theorem C15_keydict_roundtrip :
+  forall cn K, ascii_ok cn -> bytes_ok K -> keydict_key (render_keydict cn K) = XOk K.
+Proof. exact keydict_roundtrip. Qed.
+Print Assumptions C15_keydict_roundtrip.
+
+(* Round trip on the writer's own output: the wrapped key is the rendered key dictionary and
+   encryption.data is the base64 TEXT of the sealed configuration; the only parsing step left as a
+   premise is KeySafe.from_text of the key-safe string (exercised by C15_example_unlocks and by the
+   correspondence). *)
+Theorem C15_unlock_roundtrip_sealed :
+  forall (aes_enc aes_dec : bytes -> bytes -> bytes -> bytes)
+         (hmac : str -> bytes -> bytes -> bytes)
+         (pbkdf2 : str -> bytes -> bytes -> Z -> Z -> bytes),
+  (forall k iv p, valid_keylen (len k) = true -> len iv = 16 -> len p mod 16 = 0 ->
+                  aes_dec k iv (aes_enc k iv p) = p) ->
+  (forall k iv p, len (aes_enc k iv p) = len p) ->
+  (forall h k m, 0 < hash_len h -> len (hmac (cps h) k m) = hash_len h) ->
+  (forall h pw s r n, 0 < hash_len h -> 0 <= n -> len (pbkdf2 (cps h) pw s r n) = n) ->
+  (forall k iv p, bytes_ok (aes_enc k iv p)) ->
+  (forall h k m, bytes_ok (hmac h k m)) ->
+  let o := mk_oracles pbkdf2 aes_dec hmac in
+  forall kdf kh cipher klen macname h n rounds salt pw iv1 iv2 id cn K cfg text attr ks pre post,
+  In (kdf, kh) PASS2KEY_MAP -> In (cipher, klen) CIPHER_KEY_SIZES -> In (macname, (h, n)) HMAC_MAP ->
+  rounds_ok rounds -> len iv1 = 16 -> len iv2 = 16 -> bytes_ok iv2 ->
+  ascii_ok cn -> bytes_ok K -> valid_keylen (len K) = true ->
+  utf8_strict cfg = XOk text ->
+  let wkey := pbkdf2 (cps kh) pw salt rounds klen in
+  let pair := LPair (LPhrase id (cps kdf) (cps cipher) rounds salt) (cps macname)
+                    (seal_blob aes_enc hmac (cps h) n wkey iv1 (render_keydict cn K)) in
+  Forall (skipped o pw) pre ->
+  dict_get attr K_KEYSAFE = Some ks -> keysafe_from_text ks = XOk (pre ++ pair :: post) ->
+  dict_get attr K_DATA = Some (b64encode (seal_blob aes_enc hmac (cps h) n K iv2 cfg)) ->
+  run o (unlock attr pw) = XOk (dict_update attr (parse_dictionary text)).
+Proof.
+  intros aes_enc aes_dec hmac pbkdf2 H1 H2 H3 H4 H5 H6 o.
+  intros kdf kh cipher klen macname h n rounds salt pw iv1 iv2 id cn K cfg text attr ks pre post.
+  exact (unlock_roundtrip_sealed aes_enc o H1 H2 H3 H4 H5 H6
+           kdf kh cipher klen macname h n rounds salt pw iv1 iv2 id cn K cfg text attr ks pre post).
+Qed.
+Print Assumptions C15_unlock_roundtrip_sealed.
 
 (* ---------- non-vacuity ---------- *)
 (* the hypotheses of C15_unlock_roundtrip are satisfiable (a toy, key-dependent cipher/MAC/KDF) *)
